@@ -132,7 +132,7 @@ class OpticalSetupBlock(Block):
 
         super().__init__(**kwargs)
         self.format = format
-        self.channels = channels if channels is not None else []
+        self.channels = list(channels) if channels is not None else []
 
     @staticmethod
     def _build(stream, format) -> "OpticalSetupBlock":
